@@ -65,6 +65,29 @@ def multi_proc_programs(rng, n):
     return out
 
 
+def binfmt(chk, keep, byid, d):
+    """mechanism grade: the whole file xcmp wrote is BinFormat!Emitted for the procedures of its own listing (closed file, string
+    table = procedure names in layout order, symbol k = (k-1, entry of procedure k))"""
+    import binlib, xframes
+    recs = []
+    for c in keep[:3000]:
+        r = byid[c['id']]
+        ents = [(int(m.group(1), 16), m.group(3)) for m in xframes.ENTRY.finditer(r['listing'])]
+        recs.append({'id': c['id'], 'kind': 'emit', 'file': list(struct.pack('<I', r['hdr'])) + list(r['img']) + list(r['dbg']),
+                     'names': [list(n.encode()) for _, n in ents], 'entries': [o for o, _ in ents]})
+    if not recs:
+        return
+    can = json.loads(json.dumps(recs[0])); can['id'] = 'canary'; can['file'].append(0)
+    verd = binlib.validate(recs + [can], d, "c15bin")
+    if verd[-1]['v'] == "":
+        raise vlib.MachineryError("binary-format canary accepted: binding is not live")
+    bad = [v for v in verd[:-1] if v['v'] != ""]
+    chk.set("binaries_matching_BinFormat_Emitted", len(verd) - 1 - len(bad))
+    chk.set("DRIFT_binaries_not_as_BinFormat_Emitted", len(bad))
+    if bad:
+        chk.set("binfmt_drift_examples", bad[:3])
+
+
 def run(tier, replay=None):
     chk = vlib.Check(PID, tier, "model_checking")
     d = vlib.rundir("c15")
@@ -128,6 +151,7 @@ def run(tier, replay=None):
                 chk.violation("%s:%s" % (fam, re.sub(r'\d+', 'N', v['why'])), "program %s: %s" % (c['id'], v['why']), {"prog.x": c['src']})
             elif v['v'] == 'walk':
                 raise vlib.MachineryError("cannot walk the image of %s against its listing: %s" % (c['id'], v['why']))
+        binfmt(chk, keep, {r_['id']: r_ for r_ in res if 'dbg' in r_}, d)
         chk.add("states", nlines); chk.add("transitions", nlines)
         chk.set("programs_traced", len(recs)); chk.set("verdicts", dict(cnt))
         chk.set("trace_lines_checked", nlines); chk.set("procedure_entries_checked", nent)
